@@ -180,6 +180,18 @@ class MirFile:
             j += 1
         return Function(h, self.lines[i:j + 1])
 
+    def const_fn(self, name):
+        """The body of a `const NAME: T = { ... }` item as a zero-argument Function (evaluated by the executor itself)."""
+        rx = re.compile(r"^const (?:\S*::)?%s: (.+) = \{$" % re.escape(name))
+        for i, l in enumerate(self.lines):
+            m = rx.match(l)
+            if m:
+                j = i
+                while self.lines[j] != "}":
+                    j += 1
+                return Function("fn const_%s() -> %s {" % (name, m.group(1)), [l] + self.lines[i + 1:j + 1])
+        return None
+
     def resolve_callee(self, callee):
         """Function object for a call-site callee text such as `evaluator::order_compare`, `Page::<'_>::leaf_lower_bound`,
         `compare_sort_keys`; None for trait-qualified (`<T as Trait>::m`), closures and functions outside the dump."""
@@ -314,5 +326,18 @@ class MirFile:
             mm = re.search(r"_0 = const (-?\d+)_\w+;", txt)
             if mm:
                 return int(mm.group(1)), m.group(2)
+            mm = re.search(r"_0 = (\w+)\(const (-?\d+)_(\w+)\);", txt)
+            if mm:
+                return ("newtype", mm.group(1), int(mm.group(2)), mm.group(3)), "struct"
             raise MirError("const %s too complex: %s" % (name_regex, txt[:200]))
+        # newtype struct constant: `const NAME: T = { ... _0 = T(const 2_u64); ... }`
+        rx = re.compile(r"^const (?:\S*::)?(%s): ([\w:]+) = \{$" % name_regex)
+        for i, l in enumerate(self.lines):
+            m = rx.match(l)
+            if not m:
+                continue
+            txt = " ".join(x.strip() for x in self.lines[i + 1:i + 12])
+            mm = re.search(r"_0 = (\w+)\(const (-?\d+)_(\w+)\);", txt)
+            if mm:
+                return ("newtype", mm.group(1), int(mm.group(2)), mm.group(3)), "struct"
         raise MirError("const not found: " + name_regex)
